@@ -422,6 +422,9 @@ func (_this *Encoder) OnMediaBegin(mediaType string) {
 }
 
 func (_this *Encoder) OnCustomBegin(arrayType events.ArrayType, customType uint64) {
+	if arrayType == events.ArrayTypeCustomText {
+		panic(fmt.Errorf("CBE encoder cannot encode custom text"))
+	}
 	_this.arrayType = events.ArrayTypeCustomBinary
 	_this.trySmallArrayHeader = false
 	_this.writer.WriteType(cbeTypeCustomType)
